@@ -477,6 +477,8 @@ def run(tier, seed):
            for alg in (SHA256, SHA1) for k in range(0, 6) for p in (1, 5)]
     par.pmap(work_degenerate, deg, stats=st, chunk=2)
     par.pmap(work_history_crashed, [(k, f) for k in itertools.permutations(range(n), 2) for f in ('text', 'json')], stats=st, chunk=2)
+    from props import delivery as _DL
+    par.pmap(_DL.work, _DL.tasks(tier), extra=(('sizes',),), stats=st, chunk=12)
     vcases = []
     for sub, style, offer, banner in H.pick(tasks, seed, 16 if tier == 'quick' else 80):
         vcases.append({'label': 'gex %s %s %s %s' % (sub, style, offer, banner), 'opts': ['-n'] + (['-j'] if len(vcases) % 2 else []),
